@@ -47,6 +47,12 @@ Theorem C18_pseudorank_proportional : S_pseudorank_proportional.
 Proof. exact pseudorank_proportional_thm. Qed.
 Print Assumptions C18_pseudorank_proportional.
 
+(** the documented stopping quantity alpha/(1-alpha) |x(t) - x(t-1)|_1 bounds the l1 error
+    after every asynchronous iteration (any mixture of old and new reads; equational form) *)
+Theorem C18_async_error_bound : S_async_error_bound.
+Proof. exact async_error_bound_thm. Qed.
+Print Assumptions C18_async_error_bound.
+
 (** what the run-time oracle uses: an accepted certificate is the unique solution,
     non-negative, of sum one in the stochastic modes *)
 Theorem C18_certified_oracle : S_certified_oracle.
